@@ -30,6 +30,52 @@ def assigned_names(nodes):
     return out
 
 
+ALLOC_ONLY_CALLS = {"deepcopy", "list", "tuple", "set", "dict", "sorted", "str", "float", "int", "len", "isinstance",
+                    "enumerate", "reversed", "range", "zip", "max", "min", "sum", "any", "all", "repr", "format", "join",
+                    "get", "items", "keys", "values", "find_data", "startswith", "split", "lstrip", "strip", "warn", "print",
+                    "index", "count", "iter", "next", "bool", "abs"}
+LIST_MUTATORS = {"append", "extend", "insert", "remove", "pop", "sort", "reverse", "clear"}
+DICT_MUTATORS = {"update", "setdefault", "popitem", "add", "discard", "pop", "clear"}
+
+
+def kinds_written(nodes, eng):
+    """heap array kinds the statements may write into EXISTING objects — syntactic, conservative; None = all"""
+    kinds = set()
+    for node in nodes:
+        for n in ast.walk(node):
+            if isinstance(n, (ast.Assign, ast.AugAssign, ast.AnnAssign)):
+                tgts = n.targets if isinstance(n, ast.Assign) else [n.target]
+                for t in tgts:
+                    for tt in ([t] if not isinstance(t, (ast.Tuple, ast.List)) else t.elts):
+                        if isinstance(tt, ast.Subscript):
+                            kinds |= {"llen", "lelem", "dlen", "dkeys", "dhas", "didx", "dval"}
+                        elif isinstance(tt, ast.Name) and isinstance(n, ast.AugAssign):
+                            kinds |= {"llen", "lelem", "dlen", "dkeys", "dhas", "didx", "dval"}
+            elif isinstance(n, ast.Call):
+                f = n.func
+                name = f.attr if isinstance(f, ast.Attribute) else (f.id if isinstance(f, ast.Name) else None)
+                if name is None:
+                    return None
+                if name in LIST_MUTATORS:
+                    kinds |= {"llen", "lelem"}
+                if name in DICT_MUTATORS:
+                    kinds |= {"dlen", "dkeys", "dhas", "didx", "dval"}
+                if name in LIST_MUTATORS or name in DICT_MUTATORS or name in ALLOC_ONLY_CALLS:
+                    continue
+                # a call of something under contract: its frame decides
+                c = None
+                for q, cc in eng.reg.contracts.items():
+                    if q.rsplit(".", 1)[-1] == name:
+                        c = cc if c is None else False
+                if c is None or c is False:
+                    if name[:1].isupper():       # constructors of exceptions / plain classes allocate only
+                        continue
+                    return None
+                if c.modifies:
+                    return None
+    return kinds
+
+
 def heap_written(nodes, eng):
     """(may write heap?, receiver names, fields written) — syntactic, conservative"""
     writes = False
@@ -127,6 +173,7 @@ def invariant_loop(eng, stmt, label, spec, view, s, iter_val=None, guard=None):
         if is_for:
             b["_n"] = sv_int(view.n)
             b["_seq"] = view
+        b["_loop_alloc"] = sv_int(pre.heap.alloc)          # allocation counter when the loop was entered
         return b
 
     def spec_state(state):
@@ -159,8 +206,9 @@ def invariant_loop(eng, stmt, label, spec, view, s, iter_val=None, guard=None):
                 raise Unsupported("loop body mutates the sequence it iterates")
     loop_alloc = hs.heap.alloc
     if writes:
-        kinds = list(ARR_KINDS)
-        flds = sorted(set(fields) | set(spec.get("modifies_fields", hs.heap.fld.keys())))
+        kw = kinds_written(body_nodes, eng)
+        kinds = list(ARR_KINDS) if kw is None else sorted(kw)
+        flds = sorted(set(fields) | set(spec.get("modifies_fields", hs.heap.fld.keys() if kw is None else ())))
         new = hs.heap.havoc(kinds, flds, label.replace("#", ""))
         may = (lambda r: in_frame(r, mod_refs))
         hs.assume(*new.frame_facts(hs.heap, kinds, flds, may))
